@@ -95,16 +95,16 @@ type AssertAt struct {
 }
 
 type PredDecl struct {
-	Name   string
-	Params []QVar
-	Result TypeExpr
-	Body   Expr
-	Src    string
-	Rec    bool
+	Name     string
+	Params   []QVar
+	Result   TypeExpr
+	Body     Expr
+	Src      string
+	Rec      bool
 	Uninterp bool // declared without a body
-	File   string
-	Line   int
-	Pkg    string
+	File     string
+	Line     int
+	Pkg      string
 }
 
 type GhostDecl struct {
@@ -128,15 +128,15 @@ type LemmaDecl struct {
 }
 
 type Contracts struct {
-	Funcs   map[string]*FuncContract // key: pkgpath + "." + name for in-repo; name for extern
-	Preds   map[string]*PredDecl
-	Ghosts  map[string]*GhostDecl
-	Effects map[string]*EffectDecl
-	Lemmas  map[string]*LemmaDecl
-	ChanInvs []*ChanInv
-	Order   []string // function keys in file order
+	Funcs      map[string]*FuncContract // key: pkgpath + "." + name for in-repo; name for extern
+	Preds      map[string]*PredDecl
+	Ghosts     map[string]*GhostDecl
+	Effects    map[string]*EffectDecl
+	Lemmas     map[string]*LemmaDecl
+	ChanInvs   []*ChanInv
+	Order      []string // function keys in file order
 	LemmaOrder []string
-	Files   []string
+	Files      []string
 }
 
 func NewContracts() *Contracts {
